@@ -1114,12 +1114,23 @@ func (s *BgpServer) getBestFromLocalCallbackLocked(peer *peer, rfList []bgp.Fami
 		sendMax := peer.getAddPathSendMax(family)
 		// paths of a destination come best first: with ADD-PATH advertise what was
 		// already advertised plus new ones up to send-max, as incremental updates do.
-		added := make(map[string]uint8)
-		for _, path := range s.getPossibleBest(peer, family) {
-			if p := s.filterpath(peer, path, nil); p != nil {
+		added := make(map[string]int)
+		possible := s.getPossibleBest(peer, family)
+		accepted := make([]*table.Path, len(possible))
+		// An advertised path that the filters now reject is withdrawn by the
+		// caller: the slot it holds is free for another path of the prefix.
+		freed := make(map[string]int)
+		for i, path := range possible {
+			accepted[i] = s.filterpath(peer, path, nil)
+			if accepted[i] == nil && addPath && path != nil && peer.hasPathAlreadyBeenSent(path) {
+				freed[path.GetPrefix()]++
+			}
+		}
+		for i, path := range possible {
+			if p := accepted[i]; p != nil {
 				if addPath && !peer.hasPathAlreadyBeenSent(p) {
 					prefix := p.GetPrefix()
-					if peer.getRoutesCount(family, prefix)+added[prefix] >= sendMax {
+					if int(peer.getRoutesCount(family, prefix))-freed[prefix]+added[prefix] >= int(sendMax) {
 						peer.setPathSendMaxFiltered(p)
 						continue
 					}
